@@ -46,12 +46,15 @@ def run(ctx):
     base = {RCV: True, EP: True}
     din = state_outcomes(fsm, W, dict(base, **{LEN: True, DIR: True}))
     dout = state_outcomes(fsm, W, dict(base, **{LEN: True, DIR: False}))
-    sin = state_outcomes(fsm, W, dict(base, **{LEN: False}))
-    ctx.need(len(din) == 1 and len(dout) == 1 and len(sin) == 1, 'successors of the setup-wait state')
+    sin = state_outcomes(fsm, W, dict(base, **{LEN: False, DIR: False}))
+    sin2 = state_outcomes(fsm, W, dict(base, **{LEN: False, DIR: True}))
+    ctx.need(len(din) == 1 and len(dout) == 1 and len(sin) == 1 and len(sin2) == 1, 'successors of the setup-wait state')
     DIN, DOUT, SIN = list(din)[0], list(dout)[0], list(sin)[0]
-    ok = len({W, DIN, DOUT, SIN}) == 4 and None not in (DIN, DOUT, SIN)
+    ok = len({W, DIN, DOUT, SIN}) == 4 and None not in (DIN, DOUT, SIN) and set(sin2) == {SIN}
     ctx.ob('C07.setup-dispatch', 'USBControlEndpoint.setup-wait.dispatch', ok, fsm.state_loc[W],
-           'IN data stage iff length & device-to-host, OUT data stage iff length & host-to-device, IN status iff no data: %s %s %s' % (DIN, DOUT, SIN))
+           'IN data stage iff length & device-to-host, OUT data stage iff length & host-to-device, IN status iff no data '
+           '(whatever the direction bit): length&in -> %s, length&out -> %s, no length&out -> %s, no length&in -> %s' % (
+               DIN, DOUT, SIN, sorted(map(str, sin2))))
     for name, asg in (('not-received', {RCV: False}), ('other-endpoint', {RCV: True, EP: False})):
         o = state_outcomes(fsm, W, asg)
         ctx.ob('C07.setup-dispatch', 'USBControlEndpoint.setup-wait.' + name, set(o) == {None}, fsm.state_loc[W],
